@@ -992,6 +992,9 @@ func (st *State) verifrtCall(fn *ssa.Function, args []Value) (Value, bool) {
 		return c.Bool(okAll), true
 	case "Track":
 		return nil, true
+	case "KnownIfCrash":
+		st.crashID, st.crashCond = str(1), tm(args[2])
+		return nil, true
 	case "SameObject":
 		a, b := tm(args[1]), tm(args[2])
 		ka, _ := st.splitAddr(a)
